@@ -44,6 +44,16 @@ TARGETED = [
     "from a import b\nfrom a import c\nfrom a import d\nimport a\nimport a.b\nprint(b, c, d, a)\n",
     "def f(a, b, c):\n    if a == 1 or a == 2 or a == 3 or a == 'x':\n        return b\n    return c\n",
     "import numpy as np\n\n\ndef f(a, b):\n    x = [i * 2 for i in a]\n    y = [j for j in b if j]\n    return np.array(x), np.array(y), sum([1 for _ in a])\n",
+    # constant expressions whose value would depend on the order in which a set of strings is iterated (hash seed): two-element sets, so
+    # that either order is as likely as the other under a given seed
+    "def f():\n    if list({'alpha', 'beta'}) == ['alpha', 'beta']:\n        return 1\n    return 2\n\n\nprint(f())\n",
+    "def f():\n    if list({'gamma', 'delta'}) == ['gamma', 'delta']:\n        return 1\n    return 2\n\n\nprint(f())\n",
+    "def f(g):\n    return ''.join({'ab', 'cd'}) == 'abcd' and g()\n\n\nprint(f(len))\n",
+    "def f(g):\n    return ''.join({'uv', 'wx'}) == 'uvwx' and g()\n\n\nprint(f(len))\n",
+    "x = 1 if tuple({'p', 'q'})[0] == 'p' else 2\nprint(x)\n",
+    "x = 1 if tuple({'r', 's'})[0] == 'r' else 2\nprint(x)\n",
+    "def f():\n    if next(iter({'north', 'south'})) == 'north':\n        return 1\n    else:\n        return 2\n\n\nprint(f())\n",
+    "def f():\n    if str({'east', 'west'}) == \"{'east', 'west'}\":\n        return 1\n    else:\n        return 2\n\n\nprint(f(), sorted({'b', 'a'}))\n",
 ]
 
 SAME_TEXT = [
